@@ -98,16 +98,21 @@ def simplifier_cases(ctx, budget):
             pts, fam = np.column_stack([x, y]).astype(float), 'straight-uneven-x'
         which = rng.choice(['rdp', 'rdp_fixed', 'grdp', 'mp_grdp', 'min_point_rdp', 'min_point_rdp'])
         case = dict(points=pts.tolist(), simplifier=which)
+        # every distance / cost / ordering option, not only the defaults
+        dist_ = rng.choice(list(rdp.Distance))
+        order_ = rng.choice(list(rdp.Order))
+        cost_ = rng.choice([m_ for m_ in metrics.Metrics if m_ is not metrics.Metrics.r2])
+        case.update(distance=dist_.name, order=order_.name, cost=cost_.name)
         try:
             def call():
                 if which == 'rdp':
-                    return rdp.rdp(pts, t=rng.choice([0.01, 0.1, 0.5]))
+                    return rdp.rdp(pts, t=rng.choice([0.01, 0.1, 0.5]), distance=dist_, cost=cost_)
                 if which == 'rdp_fixed':
-                    return rdp.rdp_fixed(pts, length=rng.randrange(2, n + 1))
+                    return rdp.rdp_fixed(pts, length=rng.randrange(2, n + 1), distance=dist_, order=order_)
                 if which == 'grdp':
-                    return rdp.grdp(pts, t=rng.choice([0.01, 0.1, 0.5]))
+                    return rdp.grdp(pts, t=rng.choice([0.01, 0.1, 0.5]), distance=dist_, cost=cost_, order=order_)
                 if which == 'mp_grdp':
-                    return rdp.mp_grdp(pts, t=rng.choice([0.01, 0.1]), min_points=rng.randrange(2, n + 1))
+                    return rdp.mp_grdp(pts, t=rng.choice([0.01, 0.1]), min_points=rng.randrange(2, n + 1), distance=dist_, cost=cost_, order=order_)
                 return rdp.min_point_rdp(pts, t=[rng.choice([0.5, 0.2, 0.1]), rng.choice([0.05, 0.01])], min_points=rng.randrange(2, n + 1))
             (reduced, removed), _ = core.guarded(call, 64 * (2 * n) + 1024)
         except core.LoopBudgetExceeded:
@@ -132,6 +137,21 @@ def simplifier_cases(ctx, budget):
         got = [int(v) for v in rdp.mapping(np.array(I), reduced, removed).tolist()]
         if got != red:
             ctx.fail('predicate', 'mapping-equals-reduced-of-I', 'rdp.mapping∘rdp.' + which, case, dict(impl=got, expected=red))
+        # a partial position list and a shuffled table with sorted=False, on the table the simplifier itself returned
+        if len(red) >= 2:
+            I2 = sorted(rng.sample(range(len(red)), rng.randrange(1, len(red) + 1)))
+            perm = list(range(len(np.asarray(removed).reshape(-1, 2))))
+            rng.shuffle(perm)
+            try:
+                g1 = [int(v) for v in rdp.mapping(np.array(I2), reduced, removed).tolist()]
+                g2 = [int(v) for v in rdp.mapping(np.array(I2), reduced, np.asarray(removed).reshape(-1, 2)[perm], sorted=False).tolist()]
+            except Exception as e:
+                ctx.fail('predicate', 'mapping-completes-on-simplifier-output', 'rdp.mapping∘rdp.' + which, case, repr(e)[:200])
+            else:
+                want2 = [red[i] for i in I2]
+                if g1 != want2 or g2 != want2:
+                    ctx.fail('predicate', 'mapping-equals-reduced-of-I(partial I; sorted and shuffled table)', 'rdp.mapping∘rdp.' + which, case,
+                             dict(I=I2, sorted_true=g1, sorted_false=g2, expected=want2, row_order=perm))
         ctx.count('simplifier-' + which, n=n, nontrivial_key=(which, tuple(red)) if len(red) < n else None, sample=dict(simplifier=which, reduced=red))
 
 
